@@ -35,12 +35,25 @@ def scenarios():
     out.append(S("par2-fail", {"StartAt": "P", "States": {"P": {"Type": "Parallel", "End": True, "Branches": [
         {"StartAt": "A", "States": {"A": T("f1")}}, {"StartAt": "B", "States": {"B": T("f2")}}]}}},
         {"x": 1}, {"f1": [("ok",)], "f2": [("err", "Boom", "m")]}, {"f1": 30, "f2": 10}))
+    # a synchronous child execution: the parent's pending request is keyed by the child's execution ARN, which has to be
+    # the same again when the parent's Task event is redelivered (with and without an explicit child Name)
+    child = {"StartAt": "C0", "States": {"C0": {"Type": "Pass", "Next": "C"}, "C": T("fc")}}
+    for tag, params in (("noname", {}), ("named", {"Name": "kid"})):
+        par = {"StartAt": "A", "States": {
+            "A": {"Type": "Pass", "Next": "P"},
+            "P": {"Type": "Task", "Resource": "arn:aws:states:::states:startExecution.sync:2",
+                  "Parameters": dict({"StateMachineArn": ARN + "child", "Input": {"a": 1}}, **params), "ResultPath": "$.kid", "Next": "Z"},
+            "Z": {"Type": "Pass", "End": True}}}
+        out.append(S("sync-child-" + tag, par, {"x": 1}, {"fc": [("ok",)]}, {"fc": 20},
+                     extra={"machines": {"child": (child, "STANDARD")}}))
     return out
 
 
 def start(scn, share_stores):
     s = simmod.Sim(share_stores=share_stores)
     s.put_machine(ARN + "m1", json.loads(json.dumps(scn.machine)))
+    for k, (m, t) in (scn.extra.get("machines") or {}).items():
+        s.put_machine(ARN + k, json.loads(json.dumps(m)), type=t)
     pl = enginerun.Plans(scn.plans)
     for fn in scn.plans:
         base = pl.worker(fn)
@@ -83,6 +96,18 @@ def observe(s, ea):
     return fv, reqs, terms
 
 
+def undated(x, share):
+    """with stores that do not survive the crash the record of a child execution is rebuilt on redelivery with the
+    time of the rebuild: the dates a synchronous child reports are then not the pre-crash ones (not C04's subject)"""
+    if share:
+        return x
+    if isinstance(x, dict):
+        return {k: ("<date>" if k in ("StartDate", "StopDate") and isinstance(v, (int, float)) else undated(v, share)) for k, v in x.items()}
+    if isinstance(x, list):
+        return [undated(v, share) for v in x]
+    return x
+
+
 def classify(f, case, impl, model):
     """C04-F1: the crash fell between the delivery of a Task state's event and the sending of its request; the
     redelivered event is assumed to have been requested already, so the request is never sent and the execution
@@ -117,6 +142,16 @@ def stuck_detail(s, fv):
             if fr["n"] < last and fr["op"] == "ack" and str(fr.get("queue", "")).startswith("asl_workflow_reply_to"):
                 consumed.add(fr.get("correlation_id"))
     reply_consumed = [p for p in v.get("pending", []) if p in consumed]
+    # a request for a synchronous child is keyed by the child's execution ARN: "never requested" means that no execution
+    # of that child machine was ever started; a pending ARN that differs from the child that *was* started is a different matter
+    started = {n["body"]["detail"]["executionArn"] for n in s.notifications
+               if n["body"] and n["body"].get("detail", {}).get("status") == "RUNNING"}
+    rekeyed = [p for p in unsent if str(p).startswith("arn:aws:states:") and p not in started
+               and any(e.rsplit(":", 1)[0] == str(p).rsplit(":", 1)[0] for e in started)]
+    if rekeyed:
+        return {"final": fv, "pending_for_a_child_that_was_never_started": rekeyed,
+                "children_started": sorted(e for e in started if e.rsplit(":", 1)[0] == rekeyed[0].rsplit(":", 1)[0]),
+                "volatile": v, "crashes": s.crashes}
     return {"final": fv, "pending_unsent": unsent, "pending_reply_consumed": reply_consumed,
             "held_in_fanout": bool(v.get("branch_metadata")), "volatile": v, "crashes": s.crashes}
 
@@ -158,7 +193,7 @@ def run(chk):
                 chk.dist("crash.between_handlers")
                 if s.errors:
                     chk.report("impl-violates-law", case, impl={"errors": s.errors[:1]}, law="no exception escapes after a restart")
-                elif cj(fv) != cj(ref):
+                elif cj(undated(fv, share)) != cj(undated(ref, share)):
                     chk.report("impl-violates-law", case, impl=stuck_detail(s, fv), model=ref, classify=classify,
                                law="a crash between two event handlings does not change the terminal status and output")
                 elif any(v > 1 for v in reqs.values()):
